@@ -2,8 +2,8 @@
    {hostonly} / {server_port} *)
 Require Import V.Lib V.C19_Model V.C19_Proofs V.C19_ProofsHello V.C19_ProofsWire.
 Require V.GoNet.
-From Coq Require Import List Lia.
-Import ListNotations.
+From Coq Require Import Lia ZifyBool ZifyN ZifyNat.
+
 
 (* what is recorded for a connection is a function of the bytes THAT connection delivered: two
    arbitrary histories (any pools, any other connections, any interleaving, any segmentation) in
@@ -99,4 +99,30 @@ Proof.
     destruct (GoNet.contains_byte GoNet.LBR (c0 :: tl)); [left; reflexivity|].
     destruct (GoNet.contains_byte GoNet.RBR (c0 :: tl)); [left; reflexivity|].
     right. exists (firstn (i + 1) (c0 :: tl)). rewrite firstn_skipn. reflexivity.
+Qed.
+
+(* {labelN}: for EVERY Host and EVERY N text the checked-indexing model never panics and returns
+   exactly the specification's value — the N-th dot-separated piece of the Host as sent *)
+Lemma label_subst_value (host nstr : bytes) : label_subst host nstr = Ok (label_spec host nstr).
+Proof.
+  unfold label_subst, label_spec. cbv zeta. destruct (atoi nstr) as [n|]; [|reflexivity].
+  destruct (n <? 1)%Z eqn:E1.
+  - assert ((1 <=? n)%Z = false) as -> by lia. reflexivity.
+  - assert ((1 <=? n)%Z = true) as -> by lia. cbn [andb].
+    destruct (Z.of_nat (length (split 46 host)) <? n)%Z eqn:E2.
+    + assert ((n <=? Z.of_nat (length (split 46 host)))%Z = false) as -> by lia. reflexivity.
+    + assert ((n <=? Z.of_nat (length (split 46 host)))%Z = true) as -> by lia.
+      unfold idx. destruct (nth_error (split 46 host) (Z.to_nat (n - 1))) as [v|] eqn:En.
+      * cbn [rbind]. do 2 f_equal. symmetry. apply nth_error_nth. exact En.
+      * apply nth_error_None in En. lia.
+Qed.
+
+(* the pieces are those of the Host as sent: joining them with dots gives the Host back, so a
+   port with dots in it is split like everything else and never re-attached or dropped *)
+Lemma label_pieces_count (host : bytes) :
+  length (split 46 host) = S (length (filter (fun c => N.eqb c 46) host)).
+Proof.
+  unfold split. generalize (@nil N) as cur. induction host as [|c r IH]; intro cur; cbn [split_on filter].
+  - reflexivity.
+  - destruct (N.eqb c 46); cbn [length]; rewrite IH; reflexivity.
 Qed.
